@@ -689,6 +689,7 @@ func runC14(c *Ctx) {
 	r.Rule("K5", "a reused decoder starts clean (inverse pairs are applied element by element with one decoder)", 8)
 	ruleS4(c, "K5")
 	ruleK6(c, "K6")
+	ruleK7(c, "K7")
 	// K4: E1 (error discipline) + E2 (flush) restricted to codec files
 	before := len(r.obligs)
 	ruleE1(c, "K4")
@@ -1080,6 +1081,97 @@ func ruleK6(c *Ctx, rule string) {
 			r.Discharge(rule, key, read[f], "the decoder builds keys with XmlPreferences."+f+" and the encoder's classifier consults it")
 		} else {
 			r.Finding(rule, key, c.P.pos(isAttr.Pos()), "the XML decoder builds keys with XmlPreferences."+f+" (at "+written[f]+") but xmlEncoder.isAttribute does not consult it: a reserved key that begins with the attribute prefix is re-encoded as an attribute, so decode∘encode is no longer the identity")
+		}
+	}
+}
+
+// ruleK7: a Lua table key is written bare only when it is a Lua identifier and
+// not a reserved word. needsQuoting's per-rune test is evaluated exactly: the
+// runes that do not force quoting must be within [A-Za-z_] at position 0 and
+// [A-Za-z0-9_] elsewhere; its keyword switch must list every Lua 5.4 reserved word.
+func ruleK7(c *Ctx, rule string) {
+	r := c.R
+	r.Rule(rule, "bare Lua keys are identifiers ([A-Za-z_][A-Za-z0-9_]*) and never reserved words", 3)
+	pk := c.P.lib()
+	fn := lookupFunc(pk, "needsQuoting")
+	fd := funcDecl(pk, fn)
+	if fd == nil || fd.Body == nil {
+		r.Fatal("anchor missing: needsQuoting")
+		return
+	}
+	// (a) reserved words
+	reserved := []string{"and", "break", "do", "else", "elseif", "end", "false", "for", "function", "goto", "if", "in", "local", "nil", "not", "or", "repeat", "return", "then", "true", "until", "while"}
+	listed := map[string]bool{}
+	var rng *ast.RangeStmt
+	ast.Inspect(fd.Body, func(n ast.Node) bool {
+		switch x := n.(type) {
+		case *ast.CaseClause:
+			returnsTrue := false
+			for _, st := range x.Body {
+				if ret, ok := st.(*ast.ReturnStmt); ok && len(ret.Results) == 1 {
+					if b, ok := constBool(pk.TypesInfo, ret.Results[0]); ok && b {
+						returnsTrue = true
+					}
+				}
+			}
+			if returnsTrue {
+				for _, e := range x.List {
+					if s, ok := constString(pk.TypesInfo, e); ok {
+						listed[s] = true
+					}
+				}
+			}
+		case *ast.RangeStmt:
+			if rng == nil {
+				rng = x
+			}
+		}
+		return true
+	})
+	var missing []string
+	for _, w := range reserved {
+		if !listed[w] {
+			missing = append(missing, w)
+		}
+	}
+	if len(missing) == 0 {
+		r.Discharge(rule, "needsQuoting/reserved-words", c.P.pos(fd.Pos()), fmt.Sprintf("all %d Lua 5.4 reserved words force quoting", len(reserved)))
+	} else {
+		r.Finding(rule, "needsQuoting/reserved-words", c.P.pos(fd.Pos()), fmt.Sprintf("reserved word(s) %v are not quoted: `{%s = 1}` is not well-formed Lua", missing, missing[0]))
+	}
+	// (b) per-rune test
+	if rng == nil || rng.Key == nil || rng.Value == nil {
+		r.Finding(rule, "needsQuoting/rune-test", c.P.pos(fd.Pos()), "needsQuoting no longer ranges over the runes of the key with index and rune: the identifier test cannot be located")
+		return
+	}
+	keyID, ok1 := rng.Key.(*ast.Ident)
+	valID, ok2 := rng.Value.(*ast.Ident)
+	if !ok1 || !ok2 {
+		r.Undecided(rule, "needsQuoting/rune-test", c.P.pos(rng.Pos()), "range variables are not plain identifiers")
+		return
+	}
+	arg := pk.TypesInfo.Defs[valID]
+	first := rsFromString("ABCDEFGHIJKLMNOPQRSTUVWXYZabcdefghijklmnopqrstuvwxyz_")
+	rest := first.union(rsFromString("0123456789"))
+	for _, pos := range []struct {
+		name    string
+		isFirst bool
+		allowed runeSet
+	}{{"first rune", true, first}, {"later runes", false, rest}} {
+		none := rsNone()
+		ev := &runePredEval{pk: pk, env: map[types.Object]runeBinding{}, fallOff: &none,
+			assume: map[string]bool{keyID.Name + " == 0": pos.isFirst, keyID.Name + " != 0": !pos.isFirst, keyID.Name + " > 0": !pos.isFirst}}
+		quoted, ok := ev.evalStmts(rng.Body.List, arg)
+		key := "needsQuoting/rune-test(" + pos.name + ")"
+		if !ok {
+			r.Undecided(rule, key, c.P.pos(rng.Pos()), "the loop body is not a combination of rune comparisons the evaluator decides")
+			continue
+		}
+		bare := quoted.complement()
+		if extra := bare.minus(pos.allowed); len(extra) == 0 {
+			r.Discharge(rule, key, c.P.pos(rng.Pos()), "runes that do not force quoting: "+bare.String())
+		} else {
+			r.Finding(rule, key, c.P.pos(rng.Pos()), fmt.Sprintf("a key whose %s is one of %s is written bare, but Lua identifiers are ASCII only ([A-Za-z_][A-Za-z0-9_]*): the output is not well-formed Lua and does not decode back", pos.name, extra.String()))
 		}
 	}
 }
